@@ -40,6 +40,8 @@ import lbry.crypto.crypt as crypt_mod
 from lbry.wallet import Ledger, Database, Headers, Wallet, Account
 from lbry.wallet.wallet import WalletStorage, ENCRYPT_ON_DISK
 from lbry.wallet.bip32 import PrivateKey
+from lbry.wallet.manager import WalletManager
+from lbry.conf import Config
 from lbry.wallet.words import english
 from lbry.wallet.mnemonic import CJK_INTERVALS     # a table of code-point ranges (data)
 
@@ -293,6 +295,7 @@ class Env:
         self.kill_at = None        # (n, kb): SIGKILL this process before operation n (inside it when it is a write)
         self.step = 0
         self.fail_rename = False
+        self.hook = None           # (k, fn): call fn once just before file operation k of this process
 
     # -- randomness / clock ----------------------------------------------------------------------
     def urandom(self, n):
@@ -302,6 +305,11 @@ class Env:
 
     # -- file system tracing ---------------------------------------------------------------------
     def _op(self, *rec):
+        if self.hook is not None and self.step == self.hook[0]:
+            fn, self.hook = self.hook[1], None
+            saved = (self.step, self.kill_at, self.trace)
+            fn()
+            self.step, self.kill_at, self.trace = saved
         if self.kill_at is not None and self.step == self.kill_at[0] and rec[0] != 'write':
             die()
         self.step += 1
@@ -445,7 +453,7 @@ class World:
 
     def new_path(self):
         self.n += 1
-        return os.path.join(self.dir, f'w{self.n}', 'default_wallet')
+        return os.path.join(self.dir, f'w{self.n}', 'wallets', 'default_wallet')     # <wallet_dir>/wallets/default_wallet
 
     def close(self):
         try:
@@ -606,6 +614,8 @@ class Machine:
         self.truth = []            # per account: plaintext secrets when it was added (None once tampered / foreign)
         self.acc_pw = []           # per account: the password it is currently encrypted under (None = plaintext)
         self.disk_pw = []          # the same for the accounts as they are in the wallet file
+        self.started_encrypted = False   # came up through the daemon start-up path from a file with encrypted accounts
+        self.open_dbs = []
         self.violations = []
         self.model.call('init', path=hx(self.path), umask=str(UMASK))
 
@@ -646,6 +656,22 @@ class Machine:
             if k == 'reload':
                 self.wallet = Wallet.from_storage(WalletStorage(self.path), self.world)
                 return 'True'
+            if k == 'start':
+                # the daemon's start-up path, the real WalletManager.from_lbrynet_config on a Config whose wallet_dir holds
+                # the wallet file (no network: the ledger is not started, only its database is opened for unlock)
+                try:
+                    if not json.load(open(self.path))['accounts']:
+                        return 'MODEL-BAD-SHAPE'
+                except (OSError, ValueError, KeyError):
+                    return 'MODEL-BAD-SHAPE'
+                wd = os.path.dirname(os.path.dirname(self.path))
+                conf = Config(data_dir=wd, wallet_dir=wd, download_dir=wd, config=os.path.join(wd, 'settings.yml'))
+                manager = self.world.loop.run_until_complete(WalletManager.from_lbrynet_config(conf))
+                self.wallet = manager.default_wallet
+                os.makedirs(manager.ledger.path, exist_ok=True)
+                self.world.loop.run_until_complete(manager.ledger.db.open())
+                self.open_dbs.append(manager.ledger.db)
+                return 'True'
             if k == 'set_pref':
                 w.preferences[op['key']] = json.loads(json.dumps(op['value']))
                 return 'True'
@@ -681,7 +707,7 @@ class Machine:
             m['account'] = op['_model_account']
         if op['k'] == 'set_pref':
             m['value'] = jv(op['value'])
-        if op['k'] in ('encrypt', 'decrypt', 'save'):
+        if op['k'] in ('encrypt', 'decrypt', 'save', 'start'):
             m['pid'] = str(os.getpid())
         if op['k'] == 'save_crash':
             m['pid'] = str(op['_pid'])
@@ -713,7 +739,8 @@ class Machine:
                 t = self.truth[i]
                 if t and (a.private_key is not None or (t['seed'] and a.seed == t['seed'])):
                     bad.append(('lock left account %d in plaintext' % i, {'finding': 'lock_leaves_plaintext'}))
-        elif k in ('reload', 'save_crash'):
+        elif k in ('reload', 'save_crash', 'start') and out == 'True':
+            self.started_encrypted = k == 'start' and bool(w.is_locked)
             # state comes from the file now
             if k == 'save_crash' and read_file(self.path) is not None and read_file(self.path)['data'] == op.get('_new_file'):
                 self.disk_pw = op['_new_disk_pw']
@@ -723,7 +750,9 @@ class Machine:
             for i, a in enumerate(w.accounts):
                 if not a.encrypted:
                     self.acc_pw[i] = None
-        if k in ('save', 'encrypt', 'decrypt') and out == 'True':
+        if (k == 'decrypt' and out == 'True') or (k == 'set_pref' and op['key'] == ENCRYPT_ON_DISK):
+            self.started_encrypted = False           # the user's own choice from here on
+        if k in ('save', 'encrypt', 'decrypt', 'start') and out == 'True':
             self.disk_pw = self.pw_on_disk_after_save()
         if k in ('unlock', 'acc_decrypt'):
             idx = range(len(w.accounts)) if k == 'unlock' else [op['i']]
@@ -788,7 +817,7 @@ class Machine:
                     bad.append((f'unlock with the password the wallet was encrypted with is refused ({out}); seeds='
                                 f'{[self.truth[i]["seed"] for i in enc_idx]!r}',
                                 {'finding': 'unlock_refuses_correct_password'}))
-        if k in ('save', 'encrypt', 'decrypt') and out == 'True':
+        if k in ('save', 'encrypt', 'decrypt', 'start') and out == 'True':
             bad += self.check_file()
         if k == 'save_crash':
             got = read_file(self.path)
@@ -805,30 +834,42 @@ class Machine:
         """per account, the password its secrets are encrypted under in a file written by save() now"""
         w = self.wallet
         sealing = w.preferences.get(ENCRYPT_ON_DISK, False) and w.encryption_password
+        if self.started_encrypted and w.encryption_password:
+            sealing = True       # what the property demands of a wallet that came up encrypted (checked by check_file)
         return [self.acc_pw[i] if a.encrypted else (w.encryption_password if sealing else None)
                 for i, a in enumerate(w.accounts)]
 
     def check_file(self):
         w = self.wallet
         bad = []
-        if not (w.preferences.get(ENCRYPT_ON_DISK, False) and w.encryption_password):
+        enabled = w.preferences.get(ENCRYPT_ON_DISK, False) or self.started_encrypted
+        # started_encrypted: the daemon came up with this wallet's accounts stored encrypted and the user has not switched
+        # encryption off since: encryption is enabled, whatever the age of the file
+        if not (enabled and w.encryption_password):
             return bad
         data = open(self.path, 'rb').read()
         try:
-            strs = list(strings_in(json.loads(data)))
-        except ValueError:
+            doc = json.loads(data)
+            strs = list(strings_in(doc))
+            secret_fields = [str(d.get(f, '')) for d in doc.get('accounts', []) if isinstance(d, dict)
+                             for f in ('seed', 'private_key')]
+        except (ValueError, AttributeError):
             return [('the saved wallet file is not JSON', {'finding': 'saved_file_not_json'})]
         for i, t in enumerate(self.truth):
             if t is None:
                 continue
             for what, needle in plain_forms(t):
-                # short needles (a one-word seed such as 'version') are looked for in the JSON values only; long ones
-                # anywhere in the bytes as well
+                # long needles anywhere in the bytes and in any JSON value; short ones (a one-word seed such as 'version',
+                # 'chain', 'single', 'address' also occurs in keys and fixed values) only in the seed / private_key fields
                 hit = len(needle) >= 20 and needle in data
                 if not hit and what in ('seed', 'xprv'):
-                    hit = any(needle.decode() in x for x in strs)
+                    where = strs if len(needle) >= 20 else secret_fields
+                    hit = any(needle.decode() in x for x in where)
                 if hit:
-                    bad.append((f'encryption is on and a password is set, yet the file contains the {what} of account {i}',
+                    how = '' if w.preferences.get(ENCRYPT_ON_DISK, False) else \
+                        ' (the wallet came up through WalletManager.from_lbrynet_config with its accounts stored encrypted, ' \
+                        'was unlocked and saved: the encrypt-on-disk preference was never switched on for this older file)'
+                    bad.append((f'encryption is on and a password is set, yet the file contains the {what} of account {i}' + how,
                                 {'finding': 'plaintext_secret_on_disk', 'what': what}))
         for a in w.accounts:
             for pem in a.channel_keys.values():
@@ -873,6 +914,11 @@ class Machine:
                                {'out': out, 'snap': snap}, {'out': mres['out'], 'snap': mres['snap']}):
                 ok = False
                 diverged = True
+        for db in self.open_dbs:
+            try:
+                self.world.loop.run_until_complete(db.close())
+            except Exception:  # noqa
+                pass
         return ok
 
     def dry_save(self, op):
@@ -1033,6 +1079,41 @@ def storage_case(world, model, run, case):
         # (a model crash state is phrased in complete operations: the harness kills *before* operation n, i.e. after n)
         run.compare('C13.storage_write.crash', sub, {'file': got, 'tmp_exists': tmp is not None},
                     {'file': mc['file'], 'tmp_exists': mc['tmp'] is not None})
+    # 3. two processes saving the same wallet file: while this process is at operation k of its save, a second process
+    #    starts its own save of other content and dies at (n, kb) -- or completes; then this process goes on
+    newb_obj = dict(case['new'], second_writer=True)
+    newb = json.dumps(newb_obj, indent=4, sort_keys=True)
+    for k, n, kb in case.get('two_writers', []):
+        reset()
+        box = {}
+
+        def second():
+            box['pid'], _ = fork_kill(lambda: WalletStorage(path).write(newb_obj), n, kb)
+        ENV.trace, ENV.kill_at, ENV.step, ENV.fail_rename, ENV.hook = None, None, 0, False, (k, second)
+        try:
+            do_write()
+            err2 = None
+        except Exception as e:  # noqa
+            err2 = exc_name(e)
+        ENV.hook = None
+        got = read_file(path)
+        sub = dict(case, two_writers=[k, n, kb])
+        run.case(sub, nontrivial=True, sample=False)
+        run.count('two-writers:first-at-%d:second-dies-at-%d%s' % (k, n, '+partial' if kb else ''))
+        gd = None if got is None else got['data']
+        allowed = {None if old is None else hx(old), hx(new), hx(newb)}
+        if err2 or gd not in allowed:
+            run.violation(sub, f'two processes save the same wallet: the first is at file operation {k} of its save when a second '
+                               f'one starts saving and dies at its operation {n} (+{kb} bytes); afterwards the wallet file is '
+                               f'{"missing" if got is None else "%d bytes" % (len(gd) // 2)}'
+                               f'{" and the first save raised " + err2 if err2 else ""}: neither a complete previous nor a complete new file',
+                          signature={'finding': 'save_not_atomic_two_writers'})
+            continue
+        m2 = model.call('two_writers', **dict(req, pid=str(mypid), pid_b=str(box.get('pid', 0)), data_b=hx(newb),
+                                              umask=str(UMASK), k=k, n=n, kb=kb))
+        if m2['file'] is not None:
+            m2['file']['mode'] = int(m2['file']['mode'])
+        run.compare('C13.storage_write.two_writers', sub, {'file': got}, {'file': m2['file']})
     shutil.rmtree(d, ignore_errors=True)
 
 
@@ -1094,6 +1175,75 @@ def codec_case(world, model, run, case):
             run.compare('C13.better_aes_decrypt', dict(case, value=value.hex(), pw_used=pw2), r, m)
 
 
+def merge_roundtrip(world, model, run, case, w, pw, packed):
+    """Wallet.merge of the payload into a fresh wallet: with the password it was packed with (ANY string, '' included) every
+    account comes back with the same seed and keys; another password is refused and adds nothing; password None takes
+    plain JSON.  The model decides the same way which of unpack / plain JSON is used."""
+    want = {a.id: secrets_view(a) for a in w.accounts}
+
+    def merged(password, data):
+        target = Wallet()
+        try:
+            target.merge(world, password, data)
+            return {'ok': True}, target
+        except Exception as e:  # noqa
+            return {'err': exc_name(e)}, target
+
+    pwrepr = repr(pw[:30]) + (' (the empty password)' if pw == '' else '')
+    r, target = merged(pw, packed)
+    run.count('merge:same-password:' + ('ok' if 'ok' in r else r['err']) + (':empty-password' if pw == '' else ''))
+    if 'err' in r:
+        run.violation(case, f'a sync payload packed with password {pwrepr} cannot be applied with the SAME password: '
+                            f'Wallet.merge raises {r["err"]}', signature={'finding': 'merge_refuses_own_payload'})
+        return False
+    got = {a.id: secrets_view(a) for a in target.accounts}
+    if got != want:
+        run.violation(case, f'Wallet.merge with password {pwrepr} restored {sorted(got)} instead of {sorted(want)} '
+                            f'(or different seeds / keys)', signature={'finding': 'merge_restores_different_accounts'})
+        return False
+    m = model.call('merge_payload', pw=hx(pw), data=packed.hex())
+    run.compare('C13.merge.same', case, r, {'ok': True} if 'ok' in m else m)
+    r2, target2 = merged(case['pw2'], packed)
+    if 'ok' in r2 or target2.accounts:
+        run.violation(case, f'sync payload packed with {pwrepr} was applied with the DIFFERENT password {case["pw2"]!r} '
+                            f'(or the refused payload still added accounts)', signature={'finding': 'merge_wrong_password'})
+        return False
+    m2 = model.call('merge_payload', pw=hx(case['pw2']), data=packed.hex())
+    run.compare('C13.merge.other', case, r2, m2)
+    # payloads of an independent writer of the same format with other scrypt parameters in the 's:<n>:<r>:<p>:' header
+    plain = w.to_json().encode()
+    for (n, r_, p_) in case.get('foreign', []):
+        iv = bytes.fromhex(case['iv'])
+        body = iv + o_E(o_scrypt(pw.encode(), iv, n, r_, p_), iv, zlib.compress(plain))
+        foreign = base64.b64encode(b's:%d:%d:%d:' % (n, r_, p_) + body)
+        sub = dict(case, foreign_params=[n, r_, p_])
+        run.count('foreign-payload:s:%d:%d:%d' % (n, r_, p_))
+        ru = call_impl(Wallet.unpack, pw, foreign)
+        rm, targetf = merged(pw, foreign)
+        if ru != {'ok': json.loads(plain)} or 'err' in rm or {a.id: secrets_view(a) for a in targetf.accounts} != want:
+            run.violation(sub, f'a sync payload written with scrypt parameters s:{n}:{r_}:{p_} (header says so) is not opened by '
+                               f'its own password {pwrepr}: unpack -> {str(ru)[:80]}, merge -> {rm}',
+                          signature={'finding': 'foreign_payload_refused'})
+            return False
+        mf = model.call('merge_payload', pw=hx(pw), data=foreign.hex())
+        run.compare('C13.merge.foreign', sub, {'ok': json.loads(plain)},
+                    {'ok': json.loads(bytes.fromhex(mf['ok']))} if 'ok' in mf else mf)
+        rw = call_impl(Wallet.unpack, case['pw2'], foreign)
+        if 'ok' in rw:
+            run.violation(sub, f'foreign payload opened by the DIFFERENT password {case["pw2"]!r}',
+                          signature={'finding': 'unpack_wrong_password'})
+            return False
+    r3, target3 = merged(None, w.to_json())
+    if 'err' in r3 or {a.id: secrets_view(a) for a in target3.accounts} != want:
+        run.violation(case, 'Wallet.merge with password None does not restore the accounts of a plain JSON export',
+                      signature={'finding': 'merge_plain_json'})
+        return False
+    m3 = model.call('merge_payload', pw=None, data=w.to_json().encode().hex())
+    run.compare('C13.merge.plain', case, {'ok': json.loads(w.to_json())},
+                {'ok': json.loads(bytes.fromhex(m3['ok']))} if 'ok' in m3 else m3)
+    return True
+
+
 def pack_case(world, model, run, case):
     """{'kind':'pack','ops':[...machine ops building the wallet...],'pw','pw2','iv'}"""
     m = Machine(world, model, run)
@@ -1123,6 +1273,8 @@ def pack_case(world, model, run, case):
             return
         run.count('unpack:wrong-password:' + wrong['err'])
         run.compare('C13.unpack.wrong', case, wrong, model.call('unpack', pw=hx(case['pw2']), data=packed.hex()))
+        if not merge_roundtrip(world, model, run, case, w, pw, packed):
+            return
         for v in case.get('malformed', []):
             data = bytes.fromhex(v) if v != 'truncate' else base64.b64encode(base64.b64decode(packed)[:-7])
             ri = call_impl(Wallet.unpack, pw, data)
@@ -1183,7 +1335,7 @@ def other_password(rng, pw):
     cands = [pw + ' ', ' ' + pw, pw + pw, pw[:-1], pw.swapcase(), pw + '́', pw[::-1], gen_password(rng), 'x']
     rng.shuffle(cands)
     for c in cands:
-        if c and c != pw:
+        if c and c != pw and c.strip('\x00') != pw:
             return c
     return pw + '!'
 
@@ -1269,7 +1421,7 @@ def gen_pref(rng):
 def gen_machine_case(world, rng, flavour):
     ops = []
     nacc = rng.choice([0, 1, 1, 1, 2, 2, 3])
-    if flavour in ('mixed', 'badseed', 'tamper') and nacc == 0:
+    if flavour in ('mixed', 'badseed', 'tamper', 'legacy') and nacc == 0:
         nacc = 1
     if flavour == 'tamper' and rng.random() < 0.5:
         nacc = rng.choice([2, 3])
@@ -1305,6 +1457,14 @@ def gen_machine_case(world, rng, flavour):
         if rng.random() < 0.3:
             ops += [{'k': 'touch_channel', 'i': i} for i in range(nacc)]
         ops += [{'k': 'unlock', 'pw': other_password(rng, pw)}, {'k': 'unlock', 'pw': pw}]
+        if rng.random() < 0.4:
+            # password change while unlocked: the file must follow the NEW password (and refuse the old one) after a restart
+            pwb = other_password(rng, pw)
+            ops += [{'k': 'save', 'ts': T(), 'rnd': R()}, {'k': 'encrypt', 'pw': pwb, 'ts': T(), 'rnd': R()}]
+            if rng.random() < 0.5:
+                ops += [{'k': 'save', 'ts': T(), 'rnd': R()}]
+            ops += [{'k': 'reload'}, {'k': 'unlock', 'pw': pw}, {'k': 'unlock', 'pw': pwb}]
+            pw = pwb
         if rng.random() < 0.35:
             # an account added while the wallet is locked must be sealed by the next save as well
             ops += [{'k': 'lock', 'rnd': R()}, {'k': 'add', 'spec': gen_spec(world, rng)}, {'k': 'save', 'ts': T(), 'rnd': R()},
@@ -1312,7 +1472,8 @@ def gen_machine_case(world, rng, flavour):
             nacc += 1
         if rng.random() < 0.7:
             touch = [{'k': 'touch_channel', 'i': i} for i in range(nacc)] if rng.random() < 0.7 else []
-            ops += [{'k': 'save', 'ts': T(), 'rnd': R()}, {'k': 'reload'}] + touch + [{'k': 'unlock', 'pw': other_password(rng, pw)},
+            restart = {'k': 'start', 'ts': T(), 'rnd': R()} if nacc and rng.random() < 0.5 else {'k': 'reload'}
+            ops += [{'k': 'save', 'ts': T(), 'rnd': R()}, restart] + touch + [{'k': 'unlock', 'pw': other_password(rng, pw)},
                     {'k': 'unlock', 'pw': pw}, {'k': 'save', 'ts': T(), 'rnd': R()}]
         if rng.random() < 0.5:
             ops += [{'k': 'decrypt', 'ts': T(), 'rnd': R()}, {'k': 'reload'}]
@@ -1330,6 +1491,24 @@ def gen_machine_case(world, rng, flavour):
         ops.append({'k': 'unlock', 'pw': A})
         ops.append({'k': 'unlock', 'pw': rng.choice([A, B, C])})
         ops.append({'k': 'unlock', 'pw': A})
+    elif flavour == 'legacy':
+        # a wallet file whose accounts are stored encrypted but that has no encrypt-on-disk preference (written before the
+        # preference existed): made with the real code by encrypting the accounts one by one and saving; then the daemon
+        # start-up path, unlock, and the saves every later change causes
+        for i in range(nacc):
+            ops.append({'k': 'acc_encrypt', 'i': i, 'pw': pw, 'rnd': R()})
+        if rng.random() < 0.3:
+            ops.append(gen_pref(rng))
+            if ops[-1]['key'] == 'encrypt-on-disk':
+                ops[-1]['value'] = None            # an explicit null is "no preference" too
+        ops += [{'k': 'save', 'ts': T(), 'rnd': R()}, {'k': 'start', 'ts': T(), 'rnd': R()}]
+        if rng.random() < 0.5:
+            ops += [{'k': 'touch_channel', 'i': i} for i in range(nacc)]
+        ops += [{'k': 'unlock', 'pw': other_password(rng, pw)}, {'k': 'unlock', 'pw': pw}]
+        for _ in range(rng.randrange(1, 4)):
+            ops.append(rng.choice([{'k': 'save', 'ts': T(), 'rnd': R()}, {'k': 'set_pref', 'key': 'theme', 'value': rng.choice(PREF_VALUES), 'ts': T()},
+                                   {'k': 'save', 'ts': T(), 'rnd': R()}, crash()]))
+        ops += [{'k': 'save', 'ts': T(), 'rnd': R()}, {'k': rng.choice(['start', 'reload']), 'ts': T(), 'rnd': R()}, {'k': 'unlock', 'pw': pw}]
     elif flavour == 'badseed':
         ops += [{'k': 'encrypt', 'pw': pw, 'ts': T(), 'rnd': R()}, {'k': 'lock', 'rnd': R()}, {'k': 'unlock', 'pw': pw}]
         if rng.random() < 0.5:
@@ -1378,7 +1557,7 @@ def gen_machine_case(world, rng, flavour):
             elif c < 0.74:
                 ops.append(crash())
             elif c < 0.84:
-                ops.append({'k': 'reload'})
+                ops.append({'k': 'reload'} if rng.random() < 0.6 else {'k': 'start', 'ts': T(), 'rnd': R()})
             elif c < 0.92:
                 ops.append(gen_pref(rng))
             elif nacc < 4:
@@ -1398,7 +1577,9 @@ def gen_storage_case(rng, size=None):
     size = size if size is not None else rng.choice([0, 1, 100, 4000, 8100, 8192, 8193, 20000, 70000, 200000])
     old = rng.choice([None, '', '{}', json.dumps(blob(rng.choice([0, 50, 9000])), indent=4, sort_keys=True)])
     return {'kind': 'storage', 'old': old, 'oldmode': rng.choice([0o600, 0o600, 0o644, 0o400, 0o660]), 'new': blob(size),
-            'fallback': False, 'partials': sorted({1, rng.randrange(1, size + 60), size + 30})}
+            'fallback': False, 'partials': sorted({1, rng.randrange(1, size + 60), size + 30}),
+            'two_writers': [[rng.choice([4, 5, 6, 7]), 1, 0], [rng.choice([4, 5, 6]), 1, rng.randrange(1, size + 40)],
+                            [rng.choice([2, 3, 4, 5, 6, 7]), rng.choice([2, 3, 5, 8, 99]), 0]]}
 
 
 def gen_codec_case(rng, op):
@@ -1464,7 +1645,10 @@ def main(run):
     S = lambda q, t: vlib.scaled(run.tier, q, t)  # noqa: E731
     run.rule = ('machine cases: 0-3 accounts (seeded with 1/2/12/13/24 English words and odd whitespace, key-only, watch-only, '
                 'single-address, custom gaps, 0-3 channel PEM keys, unicode/escaped names) then an operation sequence of one '
-                'flavour: lifecycle (encrypt, lock, wrong password, right password, save, reload, unlock, decrypt), random walk '
+                'flavour: legacy (accounts stored encrypted, no encrypt-on-disk preference, brought up through the real '
+                'WalletManager.from_lbrynet_config, unlocked, saved), lifecycle (restart through from_storage or the daemon '
+                'start-up path; encrypt, lock, wrong password, right password, password change while unlocked then restart, '
+                'save, reload, unlock, decrypt), random walk '
                 'over all 12 operations (incl. blank password, truthy/falsy encrypt-on-disk preference values, nested '
                 'preference values), crash (process SIGKILLed before file operation 0..9 of a save or inside its write, then '
                 'restart), tamper (13 corruptions of the stored ciphertexts), mixed passwords per account, seeds outside '
@@ -1473,7 +1657,11 @@ def main(run):
                 'ligature, full-width, circled, roman numeral); wrong passwords: prefix/suffix/case/reversal mutations and the '
                 'unicode-equivalent spellings (NFKD/NFKC/NFD/NFC/full-width) of the right one. storage cases: '
                 'file sizes around the 8192-byte buffer up to 200 kB, old file absent/empty/present with 5 modes, a kill '
-                'before every one of the operations and at 3 byte offsets inside the write. codec cases: plaintext lengths '
+                'before every one of the operations and at 3 byte offsets inside the write. pack cases: pack / unpack / Wallet.merge into a '
+                'fresh wallet with the same password (first the falsy-looking ones: empty, 0, blank, None, False), another '
+                'password, password None with plain JSON, and payloads of an independent writer with other scrypt parameters in '
+                'the header (s:4096:8:1, s:16384:8:1, ...). two-writer cases: a second process saving the same wallet dies '
+                'after opening / inside / after its temp file while the first is between two of its own operations. codec cases: plaintext lengths '
                 'around the AES block, 13 malformed values each. distinct = distinct case dict; non-trivial = more than one '
                 'operation.')
     import time as _time
@@ -1487,7 +1675,7 @@ def main(run):
             run_case(world, model, run, case)
         mark('corpus')
         plan = [('lifecycle', S(30, 500)), ('walk', S(40, 900)), ('crash', S(8, 250)), ('tamper', S(45, 900)),
-                ('mixed', S(12, 150)), ('badseed', S(6, 60))]
+                ('mixed', S(12, 150)), ('badseed', S(6, 60)), ('legacy', S(10, 150))]
         for flavour, n in plan:
             for _ in range(n):
                 run_case(world, model, run, gen_machine_case(world, rng, flavour))
@@ -1514,9 +1702,12 @@ def main(run):
         for _ in range(S(4, 50)):
             run_case(world, model, run, gen_codec_case(rng, 'better'))
         mark('better')
-        for _ in range(S(5, 60)):
+        falsy_looking = ['', '0', ' ', 'None', 'False']      # '' is the desktop app's default sync password
+        for j in range(S(6, 60)):
             c = gen_machine_case(world, rng, 'lifecycle')
-            pw = gen_password(rng)
+            pw = falsy_looking[j] if j < len(falsy_looking) else gen_password(rng)
+            c['foreign'] = rng.sample([[4096, 8, 1], [16384, 8, 1], [8192, 16, 1], [1024, 16, 2], [2, 1, 1], [8192, 8, 1], [4096, 16, 1]],
+                                      S(2, 4))
             c.update(kind='pack', pw=pw, pw2=other_password(rng, pw), iv=gen_iv(rng).hex(),
                      malformed=['truncate', base64.b64encode(b's:8192:16:1:' + bytes(48)).hex()])
             if rng.random() < 0.7:
